@@ -69,6 +69,7 @@ def check_case(sub, case):
     if rng.lower_limit != lower or rng.upper_limit != upper:
         sub.fail("C01|limits|" + kind, case, "limits of %r are (%r, %r), expected (%r, %r)" % (
             description, rng.lower_limit, rng.upper_limit, lower, upper))
+    _check_sibling(sub, case, cls, kind, description)
     for probe in probes:
         expected = member(items, probe)
         sub.evaluations += 1
@@ -91,6 +92,40 @@ def check_case(sub, case):
                      "%r: value %r %s but %s" % (description, probe,
                                                  "accepted" if accepted else "rejected",
                                                  "lies outside every item" if accepted else "lies inside an item"))
+
+
+def _check_sibling(sub, case, cls, kind, description):
+    """Construction must not depend on what was constructed before: build the description with swapped letter
+    case (the reference recogniser says what it means: hex digits and symbolic names do not change, quoted letters
+    do) and then the original again; both must still be read on their own terms."""
+    from vlib import fuzz_range
+
+    sibling = description.swapcase()
+    if sibling == description:
+        return
+    try:
+        wanted = fuzz_range.recognise(sibling, kind == "dec")
+    except fuzz_range.NoClaim:
+        return
+    sub.evaluations += 1
+    for text, reference in ((sibling, wanted), (description, None)):
+        try:
+            rng = cls(text)
+        except Exception as error:
+            if reference is not None:
+                sub.fail("C01|sibling|construct|%s" % type(error).__name__, dict(case, sibling=sibling),
+                         "case variant %r of %r rejected: %s" % (sibling, description, error))
+            return
+        if reference is None:
+            try:
+                reference = fuzz_range.recognise(description, kind == "dec")
+            except fuzz_range.NoClaim:
+                return
+        if rng.items is None or sorted(map(_key, rng.items)) != sorted(map(_key, reference)):
+            sub.fail("C01|sibling|items|" + kind, dict(case, sibling=sibling),
+                     "after constructing %r and %r one after the other, items of %r are %r, expected %r" % (
+                         description, sibling, text, rng.items, reference))
+            return
 
 
 def _key(item):
